@@ -762,7 +762,8 @@ static void enumerate_c07(void)
 				continue;
 			for (int sh = 0; sh < NSHAPE; sh++) {
 				char *doc = deviate(TEMPL[t], m, sh, -1, 0);
-				c07_case_doc(doc, strlen(doc), (1u << EP_CREATE) | (sh % 4 == 0 ? (1u << EP_FP) : 0), 1);
+				c07_case_doc(doc, strlen(doc), vf_thorough ? EP_ALL : (1u << EP_CREATE) | (sh % 4 == 0 ? (1u << EP_FP) : 0) | (sh % 4 == 1 ? (1u << EP_FILE) : 0) |
+					     (sh % 4 == 2 ? (1u << EP_APPEND) : 0) | (sh % 4 == 3 ? (1u << EP_LOAD_STRN) : 0), 1);
 				free(doc);
 			}
 		}
